@@ -46,6 +46,7 @@ def _plan(tier, seed):
     specs += [{"kind": "lattice", "part": p, "parts": 8, "maxm": 9 if tier == "quick" else 13} for p in range(8)]
     big = 1 if tier == "quick" else 30
     specs += [{"kind": "large", "start": p * big, "count": big} for p in range(4 if tier == "quick" else 16)]
+    specs += [{"kind": "huge", "start": 2 * p, "count": 2} for p in range(2 if tier == "quick" else 8)]
     return specs
 
 
@@ -76,7 +77,7 @@ def judge(ctx, cid, case, res):
 
 def run_random_case(ctx, kind, idx):
     rng = ctx.rng(kind, idx)
-    case = M.gen_case(rng, weaver=bool(rng.integers(0, 7) == 0), large=kind == "large")
+    case = M.gen_case(rng, weaver=bool(rng.integers(0, 7) == 0), large=kind == "large", huge=kind == "huge")
     if kind == "large":
         ctx.count("large:len(x)*len(x_ref)>2**20" if len(case["x"]) * len(case["x_ref"]) > 2 ** 20 else "large:below_2**20")
     cid = ctx.case_id(kind, idx)
